@@ -79,7 +79,15 @@ def f_w(x):
     return float(sum((i + 1) * abs(abs(float(v) - 0.2) - 1.0) for i, v in enumerate(x)))
 
 
-FUNCS = {"rosen": f_rosen, "sphere": f_sphere, "quad1": f_quad1, "abs": f_abs, "maxabs": f_maxabs, "ill": f_ill,
+_SW, _SC, _SS = (3, 2, 1, 2, 1, 3), (0.5, 2.0, 1.0, 0.0, 1.5, 0.25), (1.0, 1.0, 2.0, 0.5, 1.0, 2.0)
+
+
+def f_stairs(x):
+    """integer-valued staircase with unequal weights: exact ties, and Powell's test quantity t can be exactly 0"""
+    return float(sum(_SW[i % 6] * math.floor(abs(float(v) - _SC[i % 6]) * _SS[i % 6]) for i, v in enumerate(x)))
+
+
+FUNCS = {"stairs": f_stairs, "rosen": f_rosen, "sphere": f_sphere, "quad1": f_quad1, "abs": f_abs, "maxabs": f_maxabs, "ill": f_ill,
          "plateau": f_plateau, "step": f_step, "walls": f_walls, "wallsq": f_wallsq, "w": f_w}
 # name -> (dims quick, dims thorough, start box, class)
 CATALOGUE = {
@@ -89,8 +97,9 @@ CATALOGUE = {
     "abs":     ((2, 3), (1, 2, 3, 4), 2.0, "non-smooth"),
     "maxabs":  ((2,), (2, 3), 2.0, "non-smooth"),
     "ill":     ((2, 3), (2, 3, 4), 2.0, "ill-conditioned"),
-    "plateau": ((2, 3), (1, 2, 3, 4), 3.0, "ties"),
-    "step":    ((2, 3), (2, 3, 4), 3.0, "ties"),
+    "plateau": ((2, 4), (1, 2, 3, 4, 5), 3.0, "ties"),
+    "step":    ((2, 4), (2, 3, 4, 5), 3.0, "ties"),
+    "stairs":  ((2, 3), (2, 3, 4, 5), 4.0, "ties"),
     "walls":   ((2,), (2, 3), 2.0, "inf-walls"),
     "wallsq":  ((2,), (2, 3), 2.0, "inf-walls"),
     "w":       ((2, 3), (2, 3, 4), 3.0, "non-convex"),
@@ -114,7 +123,7 @@ def problems(kind, tier, seed, light=False):
     thorough = tier == "thorough"
     rng = random.Random("c08/%s/%s/%d" % (kind, tier, seed))
     out = []
-    nseeds = 2 if light else (14 if thorough else 4)
+    nseeds = 2 if light else (40 if thorough else 6)
     for fn, (dq, dt, _box, _cls) in sorted(CATALOGUE.items()):
         for n in (dt if thorough and not light else dq):
             for k in range(nseeds):
@@ -163,8 +172,31 @@ def zero_start_problems(kind):
     return out
 
 
+def first_stop_problems(kind):
+    """Powell starts at a minimizer: the very first direction loop already satisfies the reference's stop test"""
+    out = []
+    for fn, n, x0, mode in (("quad1", 1, [0.7], "fmin"), ("abs", 2, [0.3, 0.6], "step"), ("sphere", 3, [0.0, 0.0, 0.0], "solve")):
+        out.append({"kind": kind, "fn": fn, "n": n, "seed": -2, "x0": list(x0), "mode": mode, "ftol": 1e-4, "xtol": 1e-4,
+                    "maxiter": None, "maxfun": None, "radius": 0.05, "adaptive": False, "direc": None, "first": True})
+    return out
+
+
+def boundary_problems(kind):
+    """inputs (found by search, always included) on which a boundary of the algorithm is hit: Nelder-Mead states whose tied
+    energies the reference's sort (numpy.argsort, not stable) orders differently from a stable sort; Powell extrapolations
+    with the test quantity t exactly 0"""
+    cases = {"nm": (("step", 4, 1), ("step", 4, 2), ("step", 4, 3), ("plateau", 4, 0), ("step", 5, 0), ("stairs", 4, 98)),
+             "pw": (("stairs", 2, 75), ("stairs", 2, 240), ("stairs", 3, 210), ("stairs", 3, 322))}[kind]
+    out = []
+    for i, (fn, n, sd) in enumerate(cases):
+        p = {"kind": kind, "fn": fn, "n": n, "seed": sd, "x0": start_point(fn, n, sd), "mode": ("fmin", "step", "solve")[i % 3],
+             "ftol": 1e-4, "xtol": 1e-4, "maxiter": None, "maxfun": None, "radius": 0.05, "adaptive": False, "direc": None, "boundary": True}
+        out.append(p)
+    return out
+
+
 def pkey(p):
-    return "%s %s n%d seed%d %s" % (p["kind"], p["fn"], p["n"], p["seed"], p["mode"]) + \
+    return "%s %s n%d seed%d %s%s" % (p["kind"], p["fn"], p["n"], p["seed"], p["mode"], " boundary" if p.get("boundary") else "") + \
         "".join(" %s=%s" % (k, p[k]) for k in ("radius", "adaptive", "direc", "xtol", "ftol", "maxiter", "maxfun")
                 if p.get(k) not in (None, False, 0.05, 1e-4))
 
@@ -292,9 +324,13 @@ def _labels(x, pts):
     return [{"l": nm, "j": j} for (nm, j), p in pts if p.shape == x.shape and np.array_equal(p, x)]
 
 
-def _argsort1(fl):
+def _argsort1(fl, stat=None):
     """the given sort: numpy.argsort with its default kind, as scipy.optimize.fmin calls it; 1-based"""
-    return [int(i) + 1 for i in np.argsort(np.array(fl, dtype=float))]
+    a = np.array(fl, dtype=float)
+    p = np.argsort(a)
+    if stat is not None and not np.array_equal(p, np.argsort(a, kind="stable")):
+        stat[0] += 1
+    return [int(i) + 1 for i in p]
 
 
 def crt_documented(sim, f, xtol, ftol):
@@ -315,6 +351,7 @@ class NMRec(object):
         self.extra_returns = 0
         self.x0 = np.array(spec["x0"], dtype=float)
         self.labelseq = []
+        self.unstable = [0]
 
     def cost(self, x):
         v = FUNCS[self.spec["fn"]](x)
@@ -348,12 +385,12 @@ class NMRec(object):
         if t == "iter":
             for k in (0, 1):
                 if len(calls) > k:
-                    sorts[k] = _argsort1(list(f0[:-1]) + [calls[k][1]])
+                    sorts[k] = _argsort1(list(f0[:-1]) + [calls[k][1]], self.unstable)
             if len(calls) == V + 1:
-                sorts[2] = _argsort1([f0[0]] + [v for _x, v in calls[2:]])
+                sorts[2] = _argsort1([f0[0]] + [v for _x, v in calls[2:]], self.unstable)
             self.labelseq.append(",".join((c["labs"][0]["l"] if c["labs"] else "?") for c in cs[:2]) + (",S" if len(cs) > 2 else ""))
         elif t == "build" and len(calls) == self.n:
-            sorts[2] = _argsort1([f0[0]] + [v for _x, v in calls])
+            sorts[2] = _argsort1([f0[0]] + [v for _x, v in calls], self.unstable)
         crt = False if t == "start" else crt_documented(sim2, f2, self.spec["xtol"], self.spec["ftol"])
         self.events.append({"t": t, "pre": pre_ok, "calls": cs, "sorts": sorts,
                             "s2": [self.ids(x) for x in sim2], "f2": [F(v) for v in f2],
@@ -444,16 +481,11 @@ def record_nm(spec):
     out["trace"] = {"n": n, "maxiter": maxiter, "maxfun": maxfun, "ev": events}
     out["stats"] = {"iters": sum(1 for e in events if e["t"] == "iter"), "calls": len(rec.log), "nan": nan,
                     "ties": sum(1 for e in events if e["t"] in ("iter", "build") and len(set(e["f2"])) < len(e["f2"])),
-                    "unstable_sort": sum(1 for e in events for p in e["sorts"] if p and _unstable(p, e)),
+                    "unstable_sort": rec.unstable[0],
                     "labelseq": _count(rec.labelseq), "extra_returns": rec.extra_returns,
                     "inf": sum(1 for _x, v in rec.log if v == float("inf")),
                     "end": events[-2]["stop"] if len(events) > 1 else "", "result": [list(map(float, np.ravel(ret[0]))), float(ret[1]), int(ret[2]), int(ret[3])]}
     return out
-
-
-def _unstable(perm, e):
-    """the given sort returned an arrangement that a stable sort would not (only possible with ties)"""
-    return False
 
 
 def _count(xs):
